@@ -25,11 +25,15 @@ PROP = "C18"
 ENGINE = "rcdom"
 HAS_MODEL = False
 USES_TRANSLATOR = True
-LEAN_TARGETS = ["H5V.Props.C18"]
-AUDIT_IMPORTS = ["H5V.Props.C18"]
+LEAN_TARGETS = ["H5V.Props.C18", "H5V.Props.C18Reach"]
+AUDIT_IMPORTS = ["H5V.Props.C18", "H5V.Props.C18Reach"]
 THEOREMS = ["H5V.Props.C18." + t for t in [
     "C18_fields_html", "C18_fields_xml", "C18_traced_are_fields", "C18_reach_step", "C18_reach_run",
     "C18_reach_remove", "C18_reach_reparent", "C18_reach_roots", "C18_reach_template",
+    # provenance (Props/C18Reach.lean): every handle the HTML tree-builder model passes to the sink after a suspension is
+    # in the traced fields at the suspension or was returned by the sink since
+    "C18_process_token", "C18_args_from_held", "C18_held_preserved", "C18_step", "C18_step_foreign", "C18_finish",
+    "C18_suspension", "C18_suspension_finish", "C18_answers", "C18_new", "C18_new_for_fragment", "C18_example",
 ]]
 TRUSTED = [
     "Lean 4 kernel; axioms ⊆ {propext, Classical.choice, Quot.sound} (audited per run)",
